@@ -110,6 +110,7 @@ static void lapx_compare(lapx_t *x,int hs,long ta,float **pcm,int ch,long n){
 }
 static int g_cblog=0;
 static int g_sklog=0;
+static int g_tw=0;
 
 /* ---------------- callbacks ---------------- */
 static size_t cb_read(void *ptr,size_t size,size_t nmemb,void *ds){
@@ -167,6 +168,7 @@ static void call_begin(int h){ H[h].src.nskv=0; cb0[h][0]=H[h].src.nread; cb0[h]
 static void ev_state(int h){
   hnd_t *x=&H[h]; OggVorbis_File *vf=&x->vf;
   ev_i("h",h);
+  if(g_tw){ ev_i("tw",1); g_tw=0; }      /* this call repeats, on a twin handle with another read schedule, the call logged just before */
   ev_i("rs",vf->ready_state); ev_i("sk",vf->seekable); ev_i("nl",vf->links); ev_i("cur",vf->current_link);
   ev_i("tell",vf->pcm_offset); ev_i("off",vf->offset);
   /* the decoder's sample bookkeeping, for the model of the decode path (meaningful while a decoder exists) */
@@ -386,7 +388,7 @@ static void lap_expect_seek(hnd_t *x,long t0,int rs0,int cur0){
 }
 static void do_seek(int h,const char *cmd,const char *targ){
   hnd_t *x=&H[h]; OggVorbis_File *vf=&x->vf;
-  long pos = x->F? resolve(x->F,targ) : atol(targ);
+  long pos = !strncmp(targ,"c:",2)? (long)ov_raw_tell(vf)+atol(targ+2) : x->F? resolve(x->F,targ) : atol(targ);     /* c:<d> = the handle's current byte position + d */
   long t0=vf->pcm_offset; int rs0=vf->ready_state, cur0=vf->current_link; long off0=vf->offset;
   call_begin(h);
   int ret; const char *name;
@@ -526,6 +528,7 @@ static int run_scenario(int from,int to,const char *name,int budget){
     else if(!strcmp(c,"clear")&&nt>=2){ int h=atoi(tok[1]); call_begin(h); int ret=ov_clear(&H[h].vf); H[h].opened=0; lapx_clear(&H[h].lx); ev_begin("Clear"); ev_i("ret",ret); ev_state(h); ev_i("live",(long long)live_bytes()-(long long)live0); ev_end(); }
     else if(!strcmp(c,"fault")&&nt>=5){ src_t *s=&H[atoi(tok[1])].src; s->f_kind=atoi(tok[2]); s->f_at=atol(tok[3]); s->f_persist=atoi(tok[4]); s->f_on=1; s->f_fired=0; if(nt>=6&&!strcmp(tok[5],"rel")){ long base=(s->f_kind<=3)?s->nread:(s->f_kind==4?s->nseek:s->ntell); s->f_at+=base; } ev_begin("Fault"); ev_i("h",atoi(tok[1])); ev_i("kind",s->f_kind); ev_i("at",s->f_at); ev_i("persist",s->f_persist); ev_end(); }
     else if(!strcmp(c,"faultoff")&&nt>=2){ src_t *s=&H[atoi(tok[1])].src; s->f_on=0; ev_begin("FaultOff"); ev_i("h",atoi(tok[1])); ev_i("fired",s->f_fired); ev_end(); }
+    else if(!strcmp(c,"tw")){ g_tw=1; }
     else if(!strcmp(c,"sr")&&nt>=4){ src_t *s=&H[atoi(tok[1])].src; s->sr_mode=atoi(tok[2]); s->sr_arg=atol(tok[3]); s->sr_rng.s=s->sr_arg*77+5; }
     else if(!strcmp(c,"sklog")&&nt>=2) g_sklog=atoi(tok[1]);
     else if(!strcmp(c,"pages")&&nt>=2){ file_t *F=g_files[atoi(tok[1])]; if(F){
